@@ -27,6 +27,21 @@ def main():
     ctx.gen = json.loads(genfiles)
     ctx.quick = tier == 'quick'
     import drivers
+    if shard % 5 == 4:
+        # ambient state the application owns: this shard runs with the library's loggers at DEBUG and a handler that formats
+        # every record (whatever a log statement evaluates or consumes, the results are the same)
+        import logging
+
+        class _Formats(logging.Handler):
+            def emit(self, record):
+                try:
+                    record.getMessage()
+                except Exception:  # noqa
+                    pass
+        lg = logging.getLogger('pamqp')
+        lg.setLevel(logging.DEBUG)
+        lg.addHandler(_Formats())
+        lg.propagate = False
     aborted = False
     try:
         drivers.DRIVERS[prop](ctx)
